@@ -32,7 +32,8 @@ PROP = {'lean_props': ['Comrak.Props.C06'],
                        'autocomplete_cap',
                        'xml_indent_cap',
                        'label_bounded',
-                       'paren_depth_bounded'],
+                       'paren_depth_bounded',
+                       'body_cells_eq', 'table_cells_capped'],
  'timeout_quick': 900,
  'timeout_thorough': 3400,
  'strength': 'partial (memos, opener search, caps, size bounds): theorems for the escapers, the backtick scanner with its positional memo as '
